@@ -120,9 +120,15 @@ def parse_src(text: str, filename: str = "<template>") -> ast.Module:
 
 def parse(rel: str) -> ast.Module:
     import os
+    import subprocess
     path = REPO / rel
     try:
-        tree = ast.parse(path.read_text(), filename=str(path))
+        if os.environ.get("VERIF_T1_SOURCE") == "HEAD":
+            # fall-back of the driver after a reader failed on the working tree: the committed source (see common.run_property)
+            text = subprocess.run(["git", "-C", str(REPO), "show", "HEAD:" + rel], check=True, capture_output=True, text=True).stdout
+        else:
+            text = path.read_text()
+        tree = ast.parse(text, filename=str(path))
     except Exception as ex:
         raise TranslateError(f"cannot parse {rel}: {ex}")
     return tree if os.environ.get("VERIF_T1_RAW") else normalize(tree)
